@@ -1,6 +1,7 @@
 import Retro.Drv.Common
 import Retro.Model.Clip
 import Retro.Spec.ClipArea
+import Retro.Model.F32Interp
 
 namespace Retro.Drv.C03
 open Retro Retro.Clip Retro.Drv
@@ -135,7 +136,7 @@ def specTri (inp : Tri Rat) (inpWords : List String) (outs : List (Tri Rat)) (ou
         else if total > want + tolArea then some ("overlap-or-outside", s!"outputs cover {fmtQ total}, inside area is {fmtQ want}: overlap or excess")
         else none
 
-def handle (case impl : List String) : Verdict :=
+def handleCore (case impl : List String) : Verdict :=
   match case with
   | "clip" :: k :: n :: words =>
     match k.toNat?, n.toNat? with
@@ -219,5 +220,38 @@ def handle (case impl : List String) : Verdict :=
         | none => v
     | _, _ => bad "clip header"
   | _ => bad "unknown op"
+
+/-- The Float32 channel (`Model/F32Interp.lean`, design/Float32.md): `Clip.clipTris` — the generic model
+itself, nothing copied — run at native binary32 on the same input bits, compared with the batch output of
+`view_frustum::clip` exactly: triangle count and every position and attribute component of every output
+vertex. `none` = bit-exact. Diagnostic only. -/
+def f32Check (case impl : List String) : Option String :=
+  match case with
+  | "clip" :: k :: n :: words =>
+    match k.toNat?, n.toNat? with
+    | some k, some n =>
+      let kw := if k == 4 || k == 5 then 3 else if k == 6 then 4 else k
+      let stride := 4 + kw
+      let fs := words.filterMap F32I.f32OfHex
+      if fs.length != words.length || words.length != n * 3 * stride then some "unparseable case" else
+      F32I.clipCheck stride fs (Retro.splitAt "|" impl).1
+    | _, _ => some "unparseable case"
+  | _ => some "unparseable case"
+
+/-- Adds exactly one of the tags `f32-bit-exact` / `f32-bits-differ`. Never changes the status: the first
+differing component is appended to the message of a verdict that is DIFF or SPEC for another reason. -/
+def withF32 (v : Verdict) (r : Option String) : Verdict :=
+  match r with
+  | none => v.addTag "f32-bit-exact"
+  | some m =>
+    let v := v.addTag "f32-bits-differ"
+    let note := " [f32 channel: " ++ m ++ "]"
+    match v.diff, v.spec with
+    | some d, _ => { v with diff := some (d ++ note) }
+    | none, some (k, s) => { v with spec := some (k, s ++ note) }
+    | none, none => v
+
+def handle (case impl : List String) : Verdict :=
+  withF32 (handleCore case impl) (f32Check case impl)
 
 end Retro.Drv.C03
